@@ -96,7 +96,7 @@ pub fn derive_replay(defs: &str, input: &str, out: &str, div: &str) {
                 Ok(Ok((before, after, upd_ok, uobs))) => json!({"d": di, "mode": "update", "argv": r["argv"], "upd": r["upd"], "panicked": false, "before": before, "value": after,
                                                                 "upd_ok": upd_ok, "cmd_obs": obs_core(&uobs), "derived": {"outcome": if upd_ok { "Ok" } else { "Err" }, "kind": ""}, "cmd_value": empty_value(), "rt_ok": true}),
             };
-            let want_ok = r["obs"]["outcome"] == "Ok";
+            let want_ok = r["upd_ok"].as_bool().unwrap_or(r["obs"]["outcome"] == "Ok");
             let ok = line["panicked"] == false && (line["upd_ok"] == true) == want_ok && (!want_ok || line["value"] == r["value"]) && obs_matches(&r["obs"], &line["cmd_obs"]);
             if !ok {
                 rep.mismatch(json!({"type": ty, "argv": r["argv"].as_array().unwrap().iter().map(|w| String::from_utf8_lossy(&bytes_of(w)).into_owned()).collect::<Vec<_>>(),
